@@ -496,7 +496,9 @@ def check_fit(rec, A, B, sigma, nc, case):
         pre = f'b/{fname}/{m}'
         n += 1
         try:
-            th = np.asarray(with_timeout(20, f, model, B, method=m, **kw), dtype=float)
+            th = np.asarray(with_timeout(60, f, model, B, method=m, **kw), dtype=float)
+        except _Timeout:
+            continue                         # machine overloaded: not a verdict
         except Exception as e:  # noqa: BLE001
             out.append((f'{pre}/raises/{type(e).__name__}', repr(e), case))
             continue
